@@ -194,7 +194,10 @@ def outline_events(model, geom, closed, verts, codes):
         if pc[0] == "move":
             evs.append(dict(op="move", at=vertex_id(pc[1], vc)))
         elif pc[0] == "line":
-            evs.append(dict(op="edge", kind="straight", first=vertex_id(pc[1], vc), last=vertex_id(pc[2], vc)))
+            a, b = vertex_id(pc[1], vc), vertex_id(pc[2], vc)
+            if a and a == b:
+                continue                 # both ends are the same vertex (vertices are distinct points): a join
+            evs.append(dict(op="edge", kind="straight", first=a, last=b))
         elif pc[0] == "arc":
             a, b = vertex_id(pc[1], vc), vertex_id(pc[2][-1], vc)
             e = edge_between(a, b, nv, closed)
@@ -213,6 +216,7 @@ def outline_events(model, geom, closed, verts, codes):
 _ACC = re.compile(r'^"ACCEPT (\d+)"')
 _AT = re.compile(r'^"AT (\d+) (\d+)"')
 NODE_TOL = 10        # 1e-9 relative to the radius
+NODE_TOL_HP = 10000  # 1e-6 in the half-plane (circle derived from half-plane coordinates of ideal points: sqrt at the boundary)
 CURVE_TOL = 100      # 1e-4 relative to the radius (matplotlib's Bezier circle: ~4e-6 for 45 degree segments)
 
 
@@ -223,7 +227,7 @@ def validate(run, traces, threshold, name="DrawPathTrace", verbose=False, worker
     with open(tf, "w") as f:
         json.dump(traces, f)
     c = core.cfg(init="TraceInit", next_="TraceNext",
-                 constants=dict(N=2, B=1, Threshold=threshold, MaxNV=8, NodeTol=NODE_TOL, CurveTol=CURVE_TOL),
+                 constants=dict(N=2, B=1, Threshold=threshold, MaxNV=8, NodeTol=NODE_TOL, NodeTolHP=NODE_TOL_HP, CurveTol=CURVE_TOL),
                  invariants=["Accepted", "OneStroke", "InOrder", "NoRepeat", "EdgesOnce", "Complete"], view="TraceView")
     env = {"TRACE_FILE": tf}
     if verbose:
@@ -267,7 +271,7 @@ def explain(tr, matched):
     if ev["kind"] == "arc":
         if ev["devn"] == CAP:
             return "piece.kind"
-        if ev["devn"] > NODE_TOL:
+        if ev["devn"] > (NODE_TOL_HP if tr["model"] == "halfplane" else NODE_TOL):
             return "arc.on_exact_circle"
         if ev["devc"] > CURVE_TOL:
             return "arc.bezier_on_circle"
